@@ -222,17 +222,21 @@ func (g *Gen) fresh(prefix, sort string) string {
 	return g.declare(sym(fmtf("%s!%d", prefix, g.nfresh)), sort)
 }
 
+// assume records a fact that holds whenever the current block executes. Facts of a block are
+// visible to obligations in its descendants, which may be reached along paths that bypass the
+// block, so every fact is guarded by the block's reachability flag.
 func (g *Gen) assume(s string) {
-	if s == "true" {
-		return
-	}
-	g.seq++
-	g.facts = append(g.facts, fact{g.cur, g.seq, s})
+	g.assumeAt(g.cur, s)
 }
 
 func (g *Gen) assumeAt(b *ssa.BasicBlock, s string) {
 	if s == "true" {
 		return
+	}
+	if b != nil {
+		if r, ok := g.reach[b]; ok && r != "true" {
+			s = implies(r, s)
+		}
 	}
 	g.seq++
 	g.facts = append(g.facts, fact{b, g.seq, s})
@@ -380,7 +384,7 @@ func (g *Gen) zero(t types.Type) string {
 		g.needSlice()
 		return "(mk_slice 0 0 0 0)"
 	case *types.Array:
-		return fmtf("((as const %s) %s)", g.sortOf(t), g.zero(u.Elem()))
+		return g.constArray(g.sortOf(t), g.zero(u.Elem()))
 	case *types.Struct:
 		name := g.sortOf(t)
 		var fs []string
@@ -399,6 +403,22 @@ func (g *Gen) zero(t types.Type) string {
 		return "(mk_iface 0 0)"
 	}
 	return "0"
+}
+
+// constArray: the array with every element equal to elem. cvc5 accepts (as const ..) only for
+// literal values, so other element terms get a named array with a defining axiom.
+func (g *Gen) constArray(sort, elem string) string {
+	if !strings.Contains(elem, "str!") && !strings.Contains(elem, "zarr!") {
+		return fmtf("((as const %s) %s)", sort, elem)
+	}
+	key := "zarr:" + sort + ":" + elem
+	if n, ok := g.strLits[key]; ok {
+		return n
+	}
+	n := g.declare(sym(fmtf("zarr!%d", len(g.strLits))), sort)
+	g.strLits[key] = n
+	g.global(fmtf("(forall ((i Int)) (! (= (select %s i) %s) :pattern ((select %s i))))", n, elem, n))
+	return n
 }
 
 func (g *Gen) strLit(s string) string {
